@@ -602,6 +602,22 @@ def _merge_all_inputs(ctx, P):
         ctx.ok("R06.5", inst, "each input re-chunked with the pattern of its own chunks")
 
 
+def _callers_unpack(P, event):
+    """Does apply_as_grid_ufunc hand only plain arrays (no {axis: component} dictionaries) to the helper recorded as `event`
+    when its input is a vector dictionary?  (A helper that does not unpack is fine when every caller unpacks for it.)"""
+    outs = run_apply(P, "(X:left)->(X:center)", [(AX,)], args=lambda: ({AX: make_da("u", [Sym("t"), dimsym("AX", "left"), dimsym("AY", "center")])},),
+                     boundary_width={"X": (0, 1)}, map_overlap=True, other_component={Sym("AY"): make_da("v", [Sym("t"), dimsym("AX", "center"), dimsym("AY", "left")])})
+    seen = False
+    for o in outs:
+        for e in o.events:
+            if e[0] == event:
+                seen = True
+                oa = e[1].get("original_args")
+                if not isinstance(oa, (list, tuple)) or any(isinstance(x, dict) for x in oa):
+                    return False
+    return seen
+
+
 def _vector_lazy(ctx, P):
     # _rechunk_to_merge_in_boundary_chunks and _map_func_over_core_dims with {axis: DataArray} originals
     def variable(ev, o, n):
@@ -616,6 +632,8 @@ def _vector_lazy(ctx, P):
         outs = ev.run_paths(fi, lambda: dict(padded_args=[make_da("padded", [Sym("t"), dimsym("AX", "left")])], original_args=[{AX: u()}], boundary_width_real_axes={AX: (0, 1)}, grid=make_grid(("AX", "AY"))))
         if all(o.kind == "return" for o in outs):
             ctx.ok("R06.6", "_rechunk_to_merge_in_boundary_chunks with a vector argument", "unpacked before .variable")
+        elif _callers_unpack(P, "rechunk"):
+            ctx.ok("R06.6", "_rechunk_to_merge_in_boundary_chunks with a vector argument", "the caller hands over unpacked components")
         else:
             o = [o for o in outs if o.kind != "return"][0]
             ctx.report("R06.6", fi, "_rechunk_to_merge_in_boundary_chunks with a vector argument", f"a dask-backed {{axis: component}} input raises {o.value} ({getattr(o.exc, 'msg', '')}): the dictionary reaches an array-only attribute")
@@ -630,6 +648,8 @@ def _vector_lazy(ctx, P):
                                                boundary_width_real_axes={AX: (0, 1)}, out_dtypes=[Sym("dt")]))
         if all(o.kind == "return" for o in outs):
             ctx.ok("R06.6", "_map_func_over_core_dims with a vector argument", "unpacked before .transpose")
+        elif _callers_unpack(P, "map_func_over_core_dims"):
+            ctx.ok("R06.6", "_map_func_over_core_dims with a vector argument", "the caller hands over unpacked components")
         else:
             o = [o for o in outs if o.kind != "return"][0]
             ctx.report("R06.6", fi2, "_map_func_over_core_dims with a vector argument", f"a dask-backed {{axis: component}} input raises {o.value} ({getattr(o.exc, 'msg', '')})")
